@@ -122,6 +122,47 @@ func ruleLimitAccept(e *Env, ruleName string, pkgs ...string) {
 	}
 }
 
+// parserEntryFuncs: the parser-level entry points of a package: the recorded ones (parserEntries) plus every other
+// exported function of the package whose parameters include a value of a ParserInput-constrained type parameter —
+// "every parsing, validating and comparing entry point", also one added later.
+func parserEntryFuncs(e *Env, rule, pkg string) []*ssa.Function {
+	var out []*ssa.Function
+	seen := map[*ssa.Function]bool{}
+	for _, n := range parserEntries[pkg] {
+		if f := e.Fn(rule, pkg, n); f != nil && !seen[f] {
+			seen[f] = true
+			out = append(out, f)
+		}
+	}
+	sp := e.P.ByName[pkg]
+	if sp == nil {
+		return out
+	}
+	var names []string
+	for n := range sp.Members {
+		names = append(names, n)
+	}
+	sort.Strings(names)
+	for _, n := range names {
+		f, ok := sp.Members[n].(*ssa.Function)
+		if !ok || f.Object() == nil || !f.Object().Exported() || seen[f] || len(f.Blocks) == 0 {
+			continue
+		}
+		for _, p := range f.Params {
+			tp, ok := p.Type().(*types.TypeParam)
+			if !ok {
+				continue
+			}
+			if nt, ok := tp.Constraint().(*types.Named); ok && nt.Obj().Name() == "ParserInput" {
+				seen[f] = true
+				out = append(out, f)
+				break
+			}
+		}
+	}
+	return out
+}
+
 // ruleNoMatchRejects: "everything else is rejected": in each of the given functions, every call that matches a regexp
 // of the module against the input decides a branch, and the branch taken when the match fails leads only to error
 // returns (the decision tables of the acceptance rules are extracted under the premise "the pattern matched" and
@@ -332,14 +373,25 @@ func ruleLimit(e *Env, ruleName string, pkgs ...string) {
 			continue
 		}
 		var fs []*ssa.Function
-		for _, n := range parserEntries[pkg] {
-			if f := e.Fn(ruleName, pkg, n); f != nil {
+		for _, f := range parserEntryFuncs(e, ruleName, pkg) {
+			// the limit is enforced by rejecting: entry points that can return an error (a comparison of two
+			// pre-release texts that yields an int has nothing to reject with)
+			res := f.Signature.Results()
+			if res.Len() > 0 && types.Identical(res.At(res.Len()-1).Type(), types.Universe.Lookup("error").Type()) {
 				fs = append(fs, f)
 			}
 		}
 		e.Flow(func(c *flow.Ctx) {
 			for _, f := range fs {
-				c.RuleLimitFirst(f, 0, sent, 0)
+				// the input is the first parameter of a ParserInput type parameter (index 0 in every recorded entry)
+				pi := 0
+				for i, p := range f.Params {
+					if _, ok := p.Type().(*types.TypeParam); ok {
+						pi = i
+						break
+					}
+				}
+				c.RuleLimitFirst(f, pi, sent, 0)
 			}
 			c.RuleLimitZero(e.PkgFuncs(pkg), "MaxInputLength")
 			c.RuleSentinelOnlyInGuards(sent, e.PkgFuncs(pkg))
